@@ -49,6 +49,13 @@ func (vc *VC) entryEnv() *SpecEnv {
 	}
 	fn := vc.fn
 	env.resolve = func(name string) (Term, bool) {
+		if strings.HasSuffix(name, "_0") { // <param>_0: the value of a parameter at function entry (parameters are mutable)
+			for _, p := range fn.Params {
+				if p.Name()+"_0" == name {
+					return vc.vals[p], true
+				}
+			}
+		}
 		for _, fv := range fn.FreeVars {
 			if fv.Name() == name {
 				// captured variable: its current value lives in a cell
